@@ -19,7 +19,9 @@ def corpus():
         for ssc in (False, True):
             out.append({"t": ["corpus", i, 0], "strict": True, "ssc": ssc})
     for t in ("", " \n", "// only a comment\n", "#TITLE;", "#ATTACKS;", "#DISPLAYBPM;", "#VERSION:0.83;#DISPLAYBPM;#NOTEDATA:;#X;#NOTES;", "#NOTEDATA:;#NOTES2:1;#NOTES:2;",
-              "#NOTEDATA:;#NOTES:2;#NOTES2:1;", "#TITLE:a\\:b;#NOTES:a:b:c:d:e:\n0000\n:x:y;"):
+              "#NOTEDATA:;#NOTES:2;#NOTES2:1;", "#TITLE:a\\:b;#NOTES:a:b:c:d:e:\n0000\n:x:y;",
+              "#CREDIT\\:EDIT:someone;#TITLE:t;", "#PATH\\\\OLD:v;#TITLE:t;", "#VERSION:0.83;#NOTEDATA:;#CREDIT\\:EDIT:someone;#NOTES:0000;",        # property NAMES with escaped metacharacters
+              "#VERSION:0.83;#TITLE:t;#NOTEDATA:;#;#STEPSTYPE:x;#NOTES:0000;", "#VERSION:0.83;#NOTEDATA:;#:;#NOTES:0000;", "#TITLE:t;#;#ARTIST:a;", "#VERSION:0.83;#NOTEDATA:;#NOTES:0000;\n#"):   # nameless properties
         for ssc in (False, True):
             out.append({"t": ["lit", t], "strict": True, "ssc": ssc})
     return out
